@@ -15,6 +15,9 @@ type GraphCase struct {
 	Request []string          `json:"request"`
 	Fail    []string          `json:"fail,omitempty"` // "T_i" control scripts set to fail
 	Runs    int               `json:"runs"`           // 1 or 2 invocations
+	// ViaClean: the invocation is `spok --clean <request...>` and a task is named clean. --clean runs the user's
+	// clean task; whether the named tasks run as well is not specified, but whatever runs obeys C03.
+	ViaClean bool `json:"via_clean,omitempty"`
 	JSON    bool              `json:"json"`
 	Sched   Sched             `json:"sched"`
 }
@@ -165,6 +168,28 @@ func (graphScen) Gen(r *Rng, cfg GenConfig) any {
 		t := Pick(r, c.Prog.Tasks)
 		c.Fail = []string{fmt.Sprintf("%s_%d", t.Name, r.Intn(t.NCmd))}
 	}
+	if r.Chance(1, 10) && reasonFree(c) {
+		// one task becomes the user's clean task and the invocation goes through --clean
+		ti := r.Intn(len(c.Prog.Tasks))
+		old := c.Prog.Tasks[ti].Name
+		for k := range c.Prog.Tasks {
+			for di := range c.Prog.Tasks[k].Deps {
+				if c.Prog.Tasks[k].Deps[di].Kind == "task" && c.Prog.Tasks[k].Deps[di].Value == old {
+					c.Prog.Tasks[k].Deps[di].Value = "clean"
+				}
+			}
+		}
+		for k := range c.Request {
+			if c.Request[k] == old {
+				c.Request[k] = "clean"
+			}
+		}
+		for k := range c.Fail {
+			c.Fail[k] = strings.Replace(c.Fail[k], old+"_", "clean_", 1)
+		}
+		c.Prog.Tasks[ti].Name = "clean"
+		c.ViaClean = true
+	}
 	if r.Chance(1, 6) {
 		// a global variable may share its name with a task (only duplicate TASKS are rejected);
 		// its value names an existing file, an existing directory or nothing in particular
@@ -176,6 +201,12 @@ func (graphScen) Gen(r *Rng, cfg GenConfig) any {
 		c.Prog.Vars = append(c.Prog.Vars, VarDef{Name: t.Name, Kind: "str", Args: []string{val}})
 	}
 	return c
+}
+
+// reasonFree: the generated case has no deliberately invalid selection (those are judged on plain runs).
+func reasonFree(c *GraphCase) bool {
+	r, _ := grExpectError(&c.Prog, c.Request)
+	return r == ""
 }
 
 // grExpectError reports why spok must refuse to run anything, or "".
@@ -262,6 +293,9 @@ func (graphScen) Exec(w *World, cc any, prop string) *Result {
 		if c.JSON {
 			args = append(args, "--json")
 		}
+		if c.ViaClean && c.Prog.Task("clean") != nil {
+			args = append(args, "--clean")
+		}
 		obs := w.Invoke(Invocation{Args: args, Cwd: w.Proj, Env: w.BaseEnv(), Inv: run, Sched: c.Sched, Faults: NoFaults()})
 		res.Ops++
 		res.Steps += len(obs.Trace)
@@ -299,6 +333,56 @@ func (graphScen) Exec(w *World, cc any, prop string) *Result {
 		}
 
 		closure, _ := c.Prog.Closure(c.Request)
+		if c.ViaClean && c.Prog.Task("clean") != nil {
+			// required: the closure of clean; allowed in addition: the closure of the named tasks
+			required, _ := c.Prog.Closure([]string{"clean"})
+			allowedAll, _ := c.Prog.Closure(append([]string{"clean"}, c.Request...))
+			res.count("probe:clean_flag_with_task_names")
+			in := map[string]bool{}
+			for _, n := range allowedAll {
+				in[n] = true
+			}
+			if v.dupes {
+				res.violate("C03", "nothing-runs-twice", sig, "`spok --clean %v`: a command ran twice: %v", c.Request, delta)
+			}
+			seenTask := map[string]int{}
+			for _, m := range delta {
+				seenTask[m]++
+			}
+			for _, t := range v.order {
+				if !in[t] {
+					res.violate("C03", "only-the-closure-runs", sig, "`spok --clean %v`: task %s ran but is neither clean, nor named, nor depended upon", c.Request, t)
+				}
+			}
+			firstPos, lastPos := map[string]int{}, map[string]int{}
+			for i, m := range delta {
+				t := m[:strings.LastIndexByte(m, '.')]
+				if _, ok := firstPos[t]; !ok {
+					firstPos[t] = i
+				}
+				lastPos[t] = i
+			}
+			for _, n := range allowedAll {
+				for _, d := range c.Prog.Task(n).Deps {
+					if d.Kind != "task" {
+						continue
+					}
+					fp, ranT := firstPos[n]
+					lp, ranD := lastPos[d.Value]
+					if ranT && ranD && lp > fp {
+						res.violate("C03", "dependencies-first", sig, "`spok --clean %v`: task %s started before its dependency %s had finished: %v", c.Request, n, d.Value, delta)
+					}
+				}
+			}
+			if len(v.failing) == 0 && !obs.Failed && run == 0 {
+				for _, n := range required {
+					if len(v.markers[n]) == 0 && c.Prog.Task(n).NCmd > 0 {
+						res.violate("C03", "closure-runs-once", sig, "`spok --clean`: task %s is clean or one of its dependencies but executed no command", n)
+					}
+				}
+			}
+			continue
+		}
 		inClosure := map[string]bool{}
 		for _, n := range closure {
 			inClosure[n] = true
@@ -402,6 +486,9 @@ func (graphScen) Shrinks(cc any) []any {
 	}
 	if c.Runs > 1 {
 		add(func(n *GraphCase) { n.Runs = 1 })
+	}
+	if c.ViaClean {
+		add(func(n *GraphCase) { n.ViaClean = false })
 	}
 	if len(c.Fail) > 0 {
 		add(func(n *GraphCase) { n.Fail = nil })
